@@ -149,7 +149,11 @@ def scenario(draw) -> Dict[str, Any]:
         ops = [o for o in ops if not (o['op'] == 'close_host' and o['t'] < t_reg + 20000)]
         services[k]['ttl_arg'] = draw(st.sampled_from([1200, 3000, 4500]))
         services[k]['no_await'] = True
-        ops.append({'t': t_reg + 350 + draw(st.integers(0, 440)), 'op': 'unregister', 'svc': k, 'what': 'port'})
+        if draw(st.booleans()):
+            ops.append({'t': t_reg + 350 + draw(st.integers(0, 440)), 'op': 'unregister', 'svc': k, 'what': 'port'})
+        else:
+            # ... or replaced through async_update_service with a new ServiceInfo (another port) while they are still going out
+            ops.append({'t': t_reg + 350 + draw(st.integers(0, 440)), 'op': 'update', 'svc': k, 'what': 'port'})
         hb = draw(st.integers(0, n_hosts - 1))
         joins[hb] = 'start'
         browsers = [{'host': hb, 'types': [services[k]['type']], 'at': max(0, t_reg - draw(st.integers(0, 2000))), 'qtype': None}] + browsers[:3]
@@ -296,7 +300,7 @@ class Run:
             for op in ops:
                 target = t0 + op['t'] / 1000.0
                 k = op.get('svc')
-                if k is not None and k in last_op_on_svc and not (k in not_awaited and op['op'] == 'unregister'):
+                if k is not None and k in last_op_on_svc and not (k in not_awaited and op['op'] in ('unregister', 'update')):
                     target = max(target, last_op_on_svc[k] + 1.5)
                 if target > w.clock.t:
                     await asyncio.sleep(target - w.clock.t)
@@ -356,6 +360,8 @@ class Run:
                     task = await h.azc.async_update_service(info)
                     infos[k] = info
                     await task
+                    if k in not_awaited:
+                        await not_awaited.pop(k)
                 elif kind in ('unregister', 'reregister'):
                     if k not in infos:
                         continue
